@@ -247,3 +247,24 @@ Definition judge_c08par (io : list Z) : list Z :=
       end
   | None => [0; 99]
   end.
+
+(* C08, "after Clear the engine behaves like a fresh one" (stream c08clear): results are a function of
+   the stored state, and Clear / ucinewgame is what resets that state.
+   Observation:  k viaUCI digestEq followStep followWhat followNodes gen
+   Clauses
+     8  after k searches and a clear, every table bucket, every history cell and the generation counter
+        equal those of a fresh engine                                   [0; 8; k mod 256]
+     9  the follow-up request is answered as a fresh engine answers it   [0; 9; observable] *)
+Definition judge_c08clear (io : list Z) : list Z :=
+  match parse_request io with
+  | Some (_, obs) =>
+      match obs with
+      | [-1; -1; -1] => [0; 98]
+      | [k; via; dig; fstep; fwhat; fnodes; gen] =>
+          if dig =? 0 then [0; 8; k mod 256]
+          else if negb (fstep =? -1) then [0; 9; fwhat]
+          else [1]
+      | _ => [0; 99]
+      end
+  | None => [0; 99]
+  end.
